@@ -308,18 +308,18 @@ inline Sx parse_summary(std::string const& text)
 
 template <typename C> struct BuiltinCb
 {
-    hep::callback<C> inner; int mode; std::string filename;
+    hep::callback<C> inner; int mode; std::string filename; bool keep;
     bool operator()(C const& c)
     {
         std::ostringstream capture;
         std::streambuf* old = std::cout.rdbuf(capture.rdbuf());
-        ::unlink(filename.c_str());
+        if (!keep) ::unlink(filename.c_str());
         bool r;
         try { r = inner(c); } catch (...) { std::cout.rdbuf(old); throw; }
         std::cout.rdbuf(old);
         Sx e = Sx::list({Sx::num(c.results().size()), Sx::num(r ? 1 : 0)});
         if (mode == 2 || mode == 3) { Sx s = parse_summary(capture.str()); if (!s.l.empty()) e.add(s); }
-        if (mode == 1 || mode == 3)
+        if ((mode == 1 || mode == 3) && !keep)
         {
             std::ifstream in(filename, std::ios::binary);
             std::ostringstream content; content << in.rdbuf();
@@ -373,7 +373,7 @@ template <typename T> struct Spec
     bool force_acc = false;
     Integrand<T> f; Map<T> map;
     bool builtin = true; int mode = 0; T target = T(); std::vector<bool> script;
-    std::string filename;
+    std::string filename; bool keepfile = false;
 };
 
 #ifdef VERIF_MPI
@@ -474,6 +474,16 @@ template <typename T, typename C, typename Mk, typename MkMpi> Sx run_ops(Spec<T
             chk = n;
             out.add(Sx::list({Sx::sym("reload"), Sx::sym("ok")}));
         }
+        else if (o == "load")
+        {
+            // read a checkpoint from a file (C18: resume from what a killed process left behind)
+            std::ifstream in(op.at(1).S_(), std::ios::binary);
+            if (!in) { out.add(Sx::list({Sx::sym("load"), Sx::sym("no_file")})); continue; }
+            C n = reload<T>(chk, in);
+            if (in.fail()) { out.add(Sx::list({Sx::sym("load"), Sx::sym("stream_failed")})); break; }
+            chk = n;
+            out.add(Sx::list({Sx::sym("load"), Sx::num(chk.results().size())}));
+        }
         else throw std::runtime_error("unknown op " + o);
     }
     return out;
@@ -523,6 +533,7 @@ template <typename T> Sx run_case(std::string const& cmd, Sx const& a)
     else { sp.builtin = false; for (auto const& b : cb.at(1).L_()) sp.script.push_back(b.N_() != 0); }
     char const* tmpdir = std::getenv("VERIF_TMP");
     sp.filename = std::string(tmpdir ? tmpdir : ".") + "/verif_chk_" + std::to_string(::getpid()) + ".txt";
+    if (Sx const* e = a.find("keepfile")) { sp.filename = e->at(1).S_(); sp.keepfile = true; }
     Sx const& ops = a.find("ops")->at(1);
     Sx const& ck = a.find("chk")->at(1);
     bool const with_dists = !sp.dists.empty() || sp.force_acc;
@@ -533,7 +544,7 @@ template <typename T> Sx run_case(std::string const& cmd, Sx const& a)
     {
         using C = PChk<T>;
         C chk = hep::make_plain_chkpt<T, script_engine>(script_engine(pos0));
-        BuiltinCb<C> bcb{hep::callback<C>(modes[sp.mode & 3], sp.filename, sp.target), sp.mode, sp.filename}; ScriptCb<C> scb{sp.script};
+        BuiltinCb<C> bcb{hep::callback<C>(modes[sp.mode & 3], sp.filename, sp.target), sp.mode, sp.filename, sp.keepfile}; ScriptCb<C> scb{sp.script};
         hep::integrand<T, Integrand<T>, true> i1(sp.f, sp.dims, sp.dists);
         hep::integrand<T, Integrand<T>, false> i0(sp.f, sp.dims, sp.dists);
         result = run_ops<T>(sp, ops, chk, [&](std::vector<std::size_t> const& calls, C const& c) {
@@ -557,7 +568,7 @@ template <typename T> Sx run_case(std::string const& cmd, Sx const& a)
         C chk = ck.at(0).is_sym("pdf")
             ? hep::make_vegas_chkpt<T, script_engine>(make_pdf<T>(ck.at(1).N_(), ck.at(2).N_(), floats<T>(ck.at(3))), static_cast<T>(ck.at(4).F_()), script_engine(pos0))
             : hep::make_vegas_chkpt<T, script_engine>(static_cast<std::size_t>(ck.at(1).N_()), static_cast<T>(ck.at(2).F_()), script_engine(pos0));
-        BuiltinCb<C> bcb{hep::callback<C>(modes[sp.mode & 3], sp.filename, sp.target), sp.mode, sp.filename}; ScriptCb<C> scb{sp.script};
+        BuiltinCb<C> bcb{hep::callback<C>(modes[sp.mode & 3], sp.filename, sp.target), sp.mode, sp.filename, sp.keepfile}; ScriptCb<C> scb{sp.script};
         hep::integrand<T, Integrand<T>, true> i1(sp.f, sp.dims, sp.dists);
         hep::integrand<T, Integrand<T>, false> i0(sp.f, sp.dims, sp.dists);
         result = run_ops<T>(sp, ops, chk, [&](std::vector<std::size_t> const& calls, C const& c) {
@@ -581,7 +592,7 @@ template <typename T> Sx run_case(std::string const& cmd, Sx const& a)
         C chk = ck.at(0).is_sym("weights")
             ? hep::make_multi_channel_chkpt<T, script_engine>(floats<T>(ck.at(1)), static_cast<T>(ck.at(2).F_()), static_cast<T>(ck.at(3).F_()), script_engine(pos0))
             : hep::make_multi_channel_chkpt<T, script_engine>(static_cast<T>(ck.at(1).F_()), static_cast<T>(ck.at(2).F_()), script_engine(pos0));
-        BuiltinCb<C> bcb{hep::callback<C>(modes[sp.mode & 3], sp.filename, sp.target), sp.mode, sp.filename}; ScriptCb<C> scb{sp.script};
+        BuiltinCb<C> bcb{hep::callback<C>(modes[sp.mode & 3], sp.filename, sp.target), sp.mode, sp.filename, sp.keepfile}; ScriptCb<C> scb{sp.script};
         hep::multi_channel_integrand<T, Integrand<T>, Map<T>, true> i1(sp.f, sp.dims, sp.map, sp.mapdims, sp.channels, sp.dists);
         hep::multi_channel_integrand<T, Integrand<T>, Map<T>, false> i0(sp.f, sp.dims, sp.map, sp.mapdims, sp.channels, sp.dists);
         result = run_ops<T>(sp, ops, chk, [&](std::vector<std::size_t> const& calls, C const& c) {
@@ -599,8 +610,7 @@ template <typename T> Sx run_case(std::string const& cmd, Sx const& a)
 #endif
             });
     }
-    ::unlink(sp.filename.c_str());
-    ::unlink((sp.filename + ".tmp").c_str());
+    if (!sp.keepfile) { ::unlink(sp.filename.c_str()); ::unlink((sp.filename + ".tmp").c_str()); }
     g_ctx = nullptr;
     return result;
 }
